@@ -527,10 +527,13 @@ def run(chk, db, tier):
 META = {
     "level": "other",
     "explanation": "The property quantifies over all partitions of a request body into frames and all Pending schedules; that quantifier is NOT decided. "
-                   "Decided: five structural necessary conditions of it, as dataflow / dominance facts over the three hand-written incremental readers - "
+                   "Decided: eight structural necessary conditions of it, as dataflow / dominance facts over the three hand-written incremental readers - "
                    "the line splitter hands out only terminated lines; the form parser's buffer accumulates every frame and never shrinks; the unconsumed "
                    "rest goes to the file-part scanner; the chunk reader threads its leftover bytes from read to read; the file-part scanner carries a "
-                   "boundary prefix across frames. Breaking any of them makes the outcome depend on where the transport cuts the frames.",
+                   "boundary prefix across frames; finding no (further) byte in the buffer at hand always leads to another pull before a format error or "
+                   "completion is concluded (empty frames are neutral, look-ahead beyond the buffer is undecided); a token longer than one byte is never "
+                   "searched for inside a single frame; the scan over candidate delimiter positions ends only by exhaustion or a match. Breaking any of "
+                   "them makes the outcome depend on where the transport cuts the frames.",
     "not_decided": ["the schedule / partition quantifier itself", "Pending wake-up orders", "parser state equivalence after arbitrary prefixes",
                     "buffered XML bodies (store_all_unlimited) and plain streamed bodies (pass-through, see C08.R6)"],
     "assumptions": ["rustc nightly MIR construction", "memchr / memchr_iter return positions of the searched byte"],
